@@ -91,12 +91,20 @@ func buildOpts(prog []optSpec, w *world) ([]mod.Opts, error) {
 		case "Reproducible":
 			out = append(out, mod.WithLayerReproducible())
 		case "LayerTime":
+			if o.A == "fromlabel" { // the deprecated spelling
+				out = append(out, mod.WithLayerTimestampFromLabel("stamp"))
+				continue
+			}
 			ot, err := optTime(o.A, w)
 			if err != nil {
 				return nil, err
 			}
 			out = append(out, mod.WithLayerTimestamp(ot))
 		case "ConfigTime":
+			if o.A == "fromlabel" {
+				out = append(out, mod.WithConfigTimestampFromLabel("stamp"))
+				continue
+			}
 			ot, err := optTime(o.A, w)
 			if err != nil {
 				return nil, err
